@@ -13,6 +13,9 @@ impl Prop for C17 {
     fn id(&self) -> &'static str {
         "C17"
     }
+    fn canary(&self) -> bool {
+        true
+    }
     fn rule(&self) -> String {
         "cases = 1-3 prepared statements with 1-6 parameters and a history of 1-12 rounds; a round sends 0-5 (one round in ten: 20-120, interleaved over the targets) COM_STMT_SEND_LONG_DATA chunks (sizes 0, 1, 300, 70000, random; one >= 2^24-byte chunk in the enumerated cases) addressed to generated (statement, parameter) targets, possibly for several statements at once, (occasionally followed by a re-prepare that hands out the same id and parameter count again, which must discard what is pending), then executes one statement whose long-data parameters are omitted inline (as clients do) while the others are sent inline incl. NULLs. One enumerated history executes a single statement more than 65536 (thorough: 131072) times - a streamed value first, inline values afterwards - so that 'delivered to exactly one execution' is also checked at distances where narrow counters wrap; another streams one parameter in more than 65536 (thorough: 200000) one-byte and empty chunks. One execution in five is answered with an error (deadlock, lock wait timeout, unknown statement handler, ...): its long data was delivered to it and must not show up again. Oracle: reference model pending[stmt][param]; at an execution the addressed parameters arrive as bytes equal to the in-order concatenation, the others exactly as encoded; afterwards the statement's pending data is empty (the next execution sees its inline value); other statements' pending data is untouched. Non-trivial = >= 2 chunks for one target, or long data pending for another statement across an execution, or an execution without long data after one with.".into()
     }
